@@ -71,7 +71,7 @@ REQUIRED = (["Epoch.year", "Epoch.get_doy", "Angle.__init__", "Angle.to_positive
 _FT = json.load(open(os.path.join(K.VERIF, "coq", "proofs", "C13", "finders.json")))
 FINDER_THMS = ["C13_" + k.replace(".", "_") for k in sorted(_FT)]
 PERI_THMS = (["C13_%s_perihelion_aphelion" % p for p in ORBITAL] + ["C13_Earth_perihelion_correction", "C13_orbit_alternate",
-             "C13_orbit_spacing", "C13_orbit_near", "C13_orbit_index"])
+             "C13_orbit_spacing", "C13_orbit_near", "C13_orbit_index"] + ["C13_%s_passage_nodes" % p for p in ORBITAL])
 THEOREMS = FINDER_THMS + ["C13_order", "C13_spacing", "C13_index", "C13_near", "C13_timing1", "C13_timing2"] + PERI_THMS
 PROOF_TIMEOUT = {"quick": 2000, "thorough": 3000}
 EXHAUSTIVE = False
@@ -82,8 +82,11 @@ MANIFEST = {
              "abstracted, is proved equal to the closed form A + kB + sum of periodic terms with every coefficient "
              "written out, k = round((365.2425 y + 1721060 - A)/B); ValueError outside -2000..4000, TypeError for "
              "non-Epoch scalars; amplitude bound C by interval arithmetic; the hand-written spec Finder.v gives "
-             "monotonicity in the query, spacing B+-2C, no skipped index, distance to the query.  That the instant is "
-             "the VSOP87 event, perihelion/aphelion and node passages, Epoch.year monotonicity and binary64 rounding "
+             "monotonicity in the query, spacing B+-2C, no skipped index, distance to the query.  Perihelion/aphelion finders "
+             "(7 planets): closed form with the index rules, the mean-instant quadratic and the interpolation window (VSOP87 "
+             "positions and Interpolation.minmax abstracted), Spec/OrbitFinder.v gives alternation, spacing and distance to "
+             "the query; passage_nodes = passage_nodes_elliptic on the mean elements and the perihelion passage (C11 has its closed "
+             "form).  That the instant is the VSOP87 event, node-passage order/accuracy, Epoch.year monotonicity and binary64 rounding "
              "are searched on the implementation."),
     "technique": "symbolic evaluation of the generated model in the ideal instance (pyrun, call-by-value) + interval "
                  "arithmetic amplitude bounds + spec theorems by lra/lia + bit-exact correspondence + search oracle "
@@ -113,7 +116,9 @@ CLAUSES = {
     "perihelion/aphelion: chosen index within 1/2 of a(y-y0) => result within (P+d)/2 + h of the query's mean instant; successive events P +- (d+2h) apart; perihelia and aphelia alternate (2h + d < P/2 proved per planet)":
         "proved [spec OrbitFinder + per-planet numbers; hypothesis: the interpolation's extremum lies inside its window (C12's clause)]; on the implementation: searched",
     "perihelion/aphelion instant is the extremum of the VSOP87 radius vector; known findings (Jupiter/Saturn raise, Uranus 6-8 d off)": "unproved (searched): depends on the VSOP87 values, which the closed form leaves abstract - no known finding became provable as a refutation",
-    "passage_nodes: order, spacing, event": "unproved (searched)",
+    "passage_nodes (7 planets) = Coordinates.passage_nodes_elliptic(arg, e, a, T_perihelion, ascending) for the mean elements at the query; TypeError for a non-Epoch scalar":
+        "proved [ideal; orbital_elements_mean_equinox, perihelion_aphelion and passage_nodes_elliptic values as hypotheses]; the closed form of passage_nodes_elliptic (v, E, M, t = T + M/n, r) is C11's theorem C11_nodes_elliptic about the same term (not repeated)",
+    "passage_nodes: order, spacing, latitude zero at the returned instant (known findings Jupiter/Saturn/Uranus, Mercury distance to the query)": "unproved (searched): depends on the mean elements and VSOP87 values",
     "binary64 rounding of the finders": "unproved: bit-exact correspondence model vs implementation on sampled queries",
 }
 
@@ -122,7 +127,7 @@ def proof_files(tier):
     return (["C13_angle.v", "C13_tac.v", "C13_defs.v"]
             + ["C13_f_%s.v" % k.replace(".", "_") for k in sorted(_FT)]
             + ["C13_main.v"] + ["C13_s_%s.v" % p for p in PERIODIC]
-            + ["C13_tac2.v", "C13_pdefs.v"] + ["C13_p_%s.v" % p for p in ORBITAL] + ["C13_s_peri.v"]
+            + ["C13_tac2.v", "C13_pdefs.v"] + ["C13_p_%s.v" % p for p in ORBITAL] + ["C13_s_peri.v", "C13_nodes.v", "C13_s_nodes.v"]
             + ["C13.v"])
 
 
